@@ -319,6 +319,14 @@ ret out
         // [SPAN-NEW] the byte range is exactly the pair the parser handed over; no line/column, no file yet
         out.span1 == ($p0, $p1), out.span2 is None, out.path is None,
 /*@end*/
+/*@fn lang/utils/src/span.rs :: impl Span :: fn dummy
+@*/
+    ensures r.span1 == (0usize, 0usize), r.span2 is None, r.path is None,   // [SPAN-DUMMY] the location of internal nodes: empty range, no file
+/*@end*/
+/*@fn lang/utils/src/span.rs :: impl Span :: fn get_cursor1
+@*/
+    ensures r == self.span1,   // [SPAN-RANGE] what the renderer (to_ariadne_span*) points at is the stored byte range, ends in order
+/*@end*/
 // under_loc_ctx itself (`mut self`) is rejected by the installed Verus ("does not yet support: mut self"): not under contract.
 }
 
